@@ -168,3 +168,15 @@ def run(ctx, report):
 def finish(ctxs, report):
     if not any("k256" in c.facts.features and "ed25519" in c.facts.features for c in ctxs):
         report.violate("ANCHOR", "CombinedKey", "no analysed configuration compiles CombinedKey")
+
+
+_own_run = run
+
+
+def run(ctx, report):
+    _own_run(ctx, report)
+    from common import Only
+    from rules import c01
+    # "the resulting key's public key ... a record signed with it verifies": which entry CombinedKey reads back
+    c01.pubkey_rule(ctx, Only(report, {"PUBKEY": "PUBKEY"}, keys=lambda r, k: k.startswith("enr_to_public/combined")))
+
